@@ -76,7 +76,7 @@ NoCur == [st |-> "none", file |-> "", text |-> "", ids |-> <<>>, hit |-> FALSE]
 IdleJob == [ph |-> "idle", tid |-> "", main |-> "", mode |-> "", key |-> "",
             queue |-> <<>>, seen |-> {}, readok |-> {}, unread |-> {},
             cur |-> NoCur, mods |-> <<>>, k |-> 0, fe |-> FALSE,
-            deferred |-> <<>>, errs |-> <<>>]
+            deferred |-> <<>>, errs |-> <<>>, at |-> ""]
 
 DeadProc == [alive |-> FALSE, seed |-> "", cache |-> EmptyFn, counter |-> 0,
              ncompiles |-> 0, job |-> IdleJob]
@@ -249,7 +249,7 @@ Blame(ps, e) ==
 
 J(ps, j) == [ps EXCEPT !.job = j]
 
-Fail(j, ids) == [j EXCEPT !.ph = "err", !.errs = ids]
+Fail(j, ids, at) == [j EXCEPT !.ph = "err", !.errs = ids, !.at = at]   \* `at': the stage that reported
 
 DoCompile(ps, e) ==
   IF e.mode = "passes"
@@ -265,7 +265,7 @@ DoRead(ps, e) ==
   LET j == ps.job IN
   IF e.ok THEN J(ps, [j EXCEPT !.queue = Tail(@), !.readok = @ \cup {e.file},
                                 !.cur = [NoCur EXCEPT !.st = "read", !.file = e.file, !.text = e.th]])
-  ELSE J(ps, [Fail(j, <<AnyId>>) EXCEPT !.queue = Tail(@), !.unread = @ \cup {e.file}])
+  ELSE J(ps, [Fail(j, <<AnyId>>, "read") EXCEPT !.queue = Tail(@), !.unread = @ \cup {e.file}])
 
 DoMod(ps, e) ==
   LET j == ps.job IN
@@ -279,7 +279,7 @@ DoHit(ps, e) == J(ps, [ps.job EXCEPT !.cur.st = "built", !.cur.hit = TRUE, !.cur
 
 DoStage(ps, e, next) ==
   (* a front stage that reports anything ends the compilation with exactly that *)
-  IF e.groups # <<>> THEN J(ps, Fail(ps.job, Ids(e.groups)))
+  IF e.groups # <<>> THEN J(ps, Fail(ps.job, Ids(e.groups), IF next = "par" THEN "tokenize" ELSE "parse"))
   ELSE J(ps, [ps.job EXCEPT !.cur.st = next])
 
 DoBld(ps, e) ==
@@ -305,13 +305,13 @@ DoPass(ps, e) ==
   LET j == ps.job
       user == UserGroups(e.groups)
       def == j.deferred \o Ids(SynthGroups(e.groups))
-  IN IF user # <<>> THEN J(ps, Fail(j, Ids(user)))
+  IN IF user # <<>> THEN J(ps, Fail(j, Ids(user), "pass" \o ToString(e.k)))
      ELSE IF e.k < NPass THEN J(ps, [j EXCEPT !.k = e.k + 1, !.deferred = def])
-     ELSE IF def # <<>> THEN J(ps, [Fail(j, def) EXCEPT !.k = NPass + 1, !.deferred = def])
+     ELSE IF def # <<>> THEN J(ps, [Fail(j, def, "deferred-synthetic") EXCEPT !.k = NPass + 1, !.deferred = def])
      ELSE J(ps, [j EXCEPT !.ph = "ir", !.k = NPass + 1])
 
 DoBack(ps, e) ==
-  IF e.groups # <<>> THEN J(ps, Fail(ps.job, Ids(e.groups)))
+  IF e.groups # <<>> THEN J(ps, Fail(ps.job, Ids(e.groups), "back-end"))
   ELSE J(ps, [ps.job EXCEPT !.ph = "header"])
 
 Do(ps, e) ==
